@@ -22,5 +22,10 @@ MenuC04(s) ==
     \cup {One("MAC", PMac(u)) : u \in us}
     \cup {One("Get", PGetWrap(u, k)) : u \in us, k \in us}
 
+\* the relation whose "never returns" consequence tlaps/LifecycleProof.tla proves for histories of any length is the
+\* relation clause C04_moves demands of every step of the engine
+LC == INSTANCE Lifecycle WITH state <- "PreActive", seen <- {"PreActive"}
+ASSUME LifecycleRelationIsTheClause == LC!Moves = LcMoves
+
 CheckedC04 == {"C04_moves", "C04_initial", "C04_use", "C04_destroy", "C04_compromise", "C08_failclean", "C08_frame", "C07_fresh", "C13_item"}
 =============================================================================
